@@ -112,6 +112,7 @@ func (d *scriptedDevice) Ioctl(cmd uintptr, arg any) (uintptr, error) {
 			hdr.OutLen = uint32(len(hdr.Data)) + 1
 		case "max":
 			hdr.OutLen = 0xffffffff
+		case "unwritten": // the field keeps what the client sent
 		}
 		d.outLen = hdr.OutLen
 		d.written = append([]byte{}, hdr.Data[:]...)
@@ -207,10 +208,27 @@ func RunClientCase(cs map[string]any, id int, seed int64, tmp string) Result {
 	var expectData []byte
 	var prov *scriptedProvider
 	opened := false
+	// an earlier successful call in this process, on the goroutine of the call under test, with a longer quote of its own
+	var prior func()
+	if cs["prior"] == "good" {
+		good := map[string]any{"rr": "r0", "qr": "r0", "st": "s0", "ol": "exact", "buf": "quote"}
+		pq := append(append([]byte{}, quote...), RandBytes(rng, 3000)...)
+		var prd [64]byte
+		rng.Read(prd[:])
+		pd := &scriptedDevice{caseDev: good, rd: prd, quote: pq}
+		rng.Read(pd.report[:])
+		prior = func() {
+			praw, perr := client.GetRawQuote(pd, prd)
+			evs = append(evs, Event{"ev": "Prior", "kind": map[bool]string{true: "data", false: "error"}[perr == nil], "dataOk": bytes.Equal(praw, pq)})
+		}
+	}
 	if via == "device" {
 		d := mkDev()
 		target = d
 		out = Guard(10*time.Second, func() error {
+			if prior != nil {
+				prior()
+			}
 			var err error
 			raw, err = client.GetRawQuote(d, rd)
 			return err
@@ -224,6 +242,9 @@ func RunClientCase(cs map[string]any, id int, seed int64, tmp string) Result {
 		target = prov
 		run := func() {
 			out = Guard(10*time.Second, func() error {
+				if prior != nil {
+					prior()
+				}
 				var err error
 				raw, err = client.GetRawQuote(prov, rd)
 				return err
